@@ -5,6 +5,8 @@ import Driver.CmdLog
 import Driver.CmdPipe
 import Driver.CmdPoll
 import Driver.CmdInc
+import Driver.CmdNoisy
+import Driver.CmdHist
 open Lean Driver
 
 def dispatch (cmd : String) (j : Json) : R Json :=
@@ -19,6 +21,9 @@ def dispatch (cmd : String) (j : Json) : R Json :=
   | "poll.dirs" => cmdPollDirs j
   | "prop.dirs" => cmdPropDirs j
   | "inc.run" => cmdIncRun j
+  | "noisy.run" => cmdNoisyRun j
+  | "hist.run" => cmdHistRun j
+  | "res.run" => cmdResRun j
   | _ => throw s!"unknown command '{cmd}'"
 
 def handleLine (line : String) : String :=
